@@ -308,6 +308,7 @@ def run(tier):
     def key(b):
         return keyfn(b) + "." + cls_of.get(b["sc"], "?").split("_bit")[0]
     chk.exec_and_validate("T_SM2", cmds, key, accel=True, families=("bits", "big"))
+    chk.first_use("T_SM2", cmds, key, accel=True, families=("bits", "big"))
     return chk.finish(
         "model_checking",
         "valid triples built from (s, t) (e is free), every single-bit flip of (px, py, e, r, s) (quick: seeded "
